@@ -34,7 +34,7 @@ Print Assumptions T02_accept_partial.
 (** the pieces of the accept side, each at full strength for its construct *)
 Theorem T02_accept_attvalue : forall q, (q = c_dq \/ q = c_sq) -> forall v fuel rest,
   forallb (lchar_ok (lit_ok_att q)) v = true -> (length (render_text v) < fuel)%nat ->
-  scan_attval fuel q false (render_text v ++ q :: rest) = SOk (text_val v) rest.
+  scan_attval fuel q false (render_text v ++ q :: rest) = SOk (att_val v) rest.
 Proof. exact scan_attval_ok. Qed.
 Print Assumptions T02_accept_attvalue.
 Theorem T02_accept_chardata : forall t fuel st rest,
@@ -123,19 +123,42 @@ Example T02_entity_examples :
   snd (escan_doc false [rc] [60;97;62;38;114;59;60;47;97;62]) = OStop (Fatal EC_RecursiveEntity).
 Proof. vm_compute. repeat split; reflexivity. Qed.
 
-(** REJECT SIDE.  Full statement (not proved):
-      T02_reject : forall cfg s ev, xscan cfg s = (ev, OOk) -> exists d ch, wf_ldoc (ns cfg) d = true /\ s = render d ch.
-    It is FALSE for the faithful model, as the two refutations below show (known findings F41, F42); the
-    correspondence checks the reject side on every run with single-constraint mutants instead. *)
+(** REJECT SIDE.  Full statement (NOT proved; no counterexample is known for the model as it stands):
+      T02_reject : forall cfg s ev, xscan cfg s = (ev, OOk) ->
+                   exists d ch, wf_ldoc (ns cfg) d = true /\ eol_choices_ok (render1 d) ch = true /\ s = render d ch /\ ev = events d.
+    The former counterexamples are gone: the model follows the repaired scanners (F41: a NUL after the root element is
+    InvalidCharacter; F42: an unpaired high surrogate before the closing quote / before "?>" is Expected2ndSurrogateChar)
+    and the repair proposed in fixes/C02-surrogate-before-reference.patch (an unpaired high surrogate before a
+    character / entity reference).  The three theorems below are the universal statements for exactly these holes; the
+    correspondence checks the reject side on every run with single-constraint mutants. *)
 Definition S (l : list N) := l.
-(** F41: a NUL character after the root element ends the document: what follows is never looked at *)
-Theorem T02_nul_epilog_refuted : exists s, xscan {| ns := false |} s = ([EvStart [97] []; EvEnd [97]], OOk) /\ In 0 s.
-Proof. exists [60; 97; 47; 62; 0; 60; 98; 47; 62]. split; [vm_compute; reflexivity|cbn; tauto]. Qed.
-Print Assumptions T02_nul_epilog_refuted.
-(** F42: an unpaired high surrogate directly before the closing quote / the closing "?>" is not diagnosed *)
-Theorem T02_surrogate_attr_end_refuted : exists s, snd (xscan {| ns := false |} s) = OOk /\ In 0xD800 s /\ ~ In 0xDC00 s.
-Proof. exists [60; 97; 32; 98; 61; 34; 120; 0xD800; 34; 47; 62]. split; [vm_compute; reflexivity|]. split; cbn; intuition discriminate. Qed.
-Print Assumptions T02_surrogate_attr_end_refuted.
+(** F41 repaired: whatever follows the root element, a document that still contains a NUL character there is fatal *)
+Theorem T02_nul_epilog_fatal : forall fuel nsf r, exists e, snd (misc (Datatypes.S fuel) nsf (0 :: r)) = SStop (Fatal e).
+Proof. intros fuel nsf r. exists EC_InvalidCharacter. reflexivity. Qed.
+Print Assumptions T02_nul_epilog_fatal.
+(** F42 repaired + proposed fix: with a pending unpaired high surrogate, the closing quote, a reference ('&'), the end
+    of the character data and the "?>" of a processing instruction are all fatal errors *)
+Theorem T02_pending_surrogate_fatal : forall fuel q r, q <> 0 ->
+  scan_attval (Datatypes.S fuel) q true (q :: r) = SStop (Fatal EC_Expected2ndSurrogateChar).
+Proof. intros fuel q r E. cbn [scan_attval]. replace (q =? 0) with false by (symmetry; apply N.eqb_neq; exact E).
+  rewrite N.eqb_refl. reflexivity. Qed.
+Print Assumptions T02_pending_surrogate_fatal.
+Theorem T02_pending_surrogate_ref_fatal : forall fuel q st r, q <> c_amp -> q <> 0 ->
+  scan_attval (Datatypes.S fuel) q true (c_amp :: r) = SStop (Fatal EC_Expected2ndSurrogateChar) /\
+  scan_chardata (Datatypes.S fuel) st true (c_amp :: r) = SStop (Fatal EC_Expected2ndSurrogateChar) /\
+  scan_chardata (Datatypes.S fuel) st true (c_lt :: r) = SStop (Fatal EC_Expected2ndSurrogateChar) /\
+  scan_chardata (Datatypes.S fuel) st true [] = SStop (Fatal EC_Expected2ndSurrogateChar) /\
+  scan_pi_data true (c_quest :: c_gt :: r) = SStop (Fatal EC_Expected2ndSurrogateChar).
+Proof. intros fuel q st r Hq H0. split; [|repeat split; reflexivity]. cbn [scan_attval]. change (c_amp =? 0) with false.
+  replace (c_amp =? q) with false by (symmetry; apply N.eqb_neq; congruence). rewrite N.eqb_refl. reflexivity. Qed.
+Print Assumptions T02_pending_surrogate_ref_fatal.
+(** the former witnesses, now rejected (executions) *)
+Example T02_former_witnesses :
+  snd (xscan {| ns := false |} [60; 97; 47; 62; 0; 60; 98; 47; 62]) = OStop (Fatal EC_InvalidCharacter) /\
+  snd (xscan {| ns := false |} [60; 97; 32; 98; 61; 34; 120; 0xD800; 34; 47; 62]) = OStop (Fatal EC_Expected2ndSurrogateChar) /\
+  snd (xscan {| ns := false |} [60; 97; 62; 0xD800; 38; 97; 109; 112; 59; 0xDC00; 60; 47; 97; 62]) = OStop (Fatal EC_Expected2ndSurrogateChar) /\
+  snd (xscan {| ns := false |} [60; 97; 32; 98; 61; 34; 0xD800; 38; 35; 54; 53; 59; 0xDC00; 34; 47; 62]) = OStop (Fatal EC_Expected2ndSurrogateChar).
+Proof. vm_compute. repeat split; reflexivity. Qed.
 
 (** reject side, by example only (each line is one violated constraint; these are executions of the model, NOT a
     universal claim -- the universal reject side is the correspondence's job) *)
